@@ -41,6 +41,7 @@ def configs(tier, seed):
         out.append(dict(name="unrank n=66 k=2", h="unrank", n=66, k=2))
     for nt, mc in ((3, 5), (4, 2), (4, 10), (5, 2)) + (((5, 3),) if tier != "quick" else ()):
         out.append(dict(name="triples nt=%d max=%d" % (nt, mc), h="triples", nt=nt, max_combos=mc))
+    out.append(dict(name="scorer reused: 7 then 6 then 8 samples, budget 10", h="scorer_reuse", nts=[7, 6, 8], budget=10))
     # sparse regimes (triple space far larger than the budget, production sizes included) with an adversarial generator:
     # it returns the worst sequence its contract allows (all-equal indices whenever it is asked to draw with replacement)
     # (40, 20000): a budget above the default that covers all C(40,3) = 9880 triples: every one of them must be used
@@ -122,6 +123,47 @@ def h_triples(ctx, cfg):
     if mc >= C:
         ctx.prove(set(seen) == set(_reference(nt, 3)), "all triples are used when the budget covers them")
     return len(seen)
+
+
+def h_scorer_reuse(ctx, cfg):
+    """one scorer object scores twice, with different numbers of posterior samples: the triples of each call are pairwise
+    distinct triples of that call's samples, min(C(n,3), budget) of them"""
+    from .c05 import _Plate, _Theta
+    np = ctx.np
+    gd = ctx.mod("batchie.scoring.gaussian_dbal")
+    core = ctx.mod("batchie.core")
+    dc = ctx.mod("batchie.distance_calculation")
+    budget = cfg["budget"]
+    scorer = gd.GaussianDBALScorer(max_chunk=5, max_triples=budget)
+    real = gd.get_combination_at_sorted_index
+    out = []
+    for nt in cfg["nts"]:
+        holder = core.ThetaHolder(n_thetas=nt)
+        for t in range(nt):
+            holder.add_theta(_Theta(np, [0.1 * (t + 1), 0.2, 0.3 + 0.01 * t], [1.0 + 0.5 * t] * 3))
+        dm = dc.ChunkedDistanceMatrix(nt)
+        for i in range(nt):
+            for j in range(i):
+                dm.add_value(i, j, 0.3 + 0.1 * i + 0.05 * j)
+        plates = {4: _Plate(np, 3, 0, 1), 9: _Plate(np, 3, 1, 2)}
+        seen = []
+
+        def recorder(ind, n, k, seen=seen):
+            r = real(ind, n, k)
+            seen.append(tuple(int(x) for x in r))
+            return r
+        gd.get_combination_at_sorted_index = recorder
+        try:
+            scorer.score(plates=plates, distance_matrix=dm, samples=holder, rng=_Adversarial(), progress_bar=False)
+        finally:
+            gd.get_combination_at_sorted_index = real
+        want = min(math.comb(nt, 3), budget)
+        ctx.prove(len(seen) == want, "number of triples is min(C(n,3), budget) in every call of a reused scorer", key="reused scorer: number of triples")
+        ctx.prove(len(set(seen)) == len(seen), "triples are pairwise distinct in every call of a reused scorer", key="reused scorer: triples not distinct")
+        ctx.prove(all(len(t) == 3 and nt > t[0] > t[1] > t[2] >= 0 for t in seen), "triples lie within the range of the call's own samples",
+                  key="reused scorer: triples out of range")
+        out.append(len(seen))
+    return out
 
 
 def h_lemma_replay(ctx, cfg):
@@ -234,4 +276,4 @@ def _extra_dict(rep):
 
 
 def run(ctx, cfg):
-    return {"unrank": h_unrank, "triples": h_triples, "lemma_replay": h_lemma_replay}[cfg["h"]](ctx, cfg)
+    return {"unrank": h_unrank, "triples": h_triples, "scorer_reuse": h_scorer_reuse, "lemma_replay": h_lemma_replay}[cfg["h"]](ctx, cfg)
